@@ -11,6 +11,17 @@ REFUSED = [
     ("old_name_only", b"--- a/../v\n+++ b/w\n@@ -1 +1 @@\n-x\n+y\n", 1),
     ("second_file", b"--- a/f\n+++ b/f\n@@ -1 +1 @@\n-x\n+y\n--- a/g/../../v\n+++ b/g/../../v\n@@ -1 +1 @@\n-x\n+y\n", 1),
 ]
+# (case, old name, new name, strip, refused?)
+NAME_PAIRS = [
+    ("old_only", "a/../v", "b/w", 1, True),
+    ("new_only", "a/w", "b/../v", 1, True),
+    ("old_absolute_p0", "/etc/v", "w", 0, True),
+    ("create_new_unsafe", None, "b/../../v", 1, True),
+    ("delete_old_unsafe", "a/../../v", None, 1, True),
+    ("both_safe", "a/d/w", "b/d/w", 1, False),
+    ("stripped_away", "../w", "../w", 1, False),
+    ("dots_in_names", "a/..w", "b/w..", 1, False),
+]
 ACCEPTED = [
     ("dotdot_stripped_away", b"--- ../f\n+++ ../f\n@@ -1 +1 @@\n-x\n+y\n", 1),
     ("absolute_stripped", b"--- /f\n+++ /f\n@@ -1 +1 @@\n-x\n+y\n", 1),
@@ -41,14 +52,12 @@ def spec(tier, seed):
     # as a decision table over MIR plus concrete names below.
     for (L, st, ow) in ([(3, 1, False), (4, 1, True)] if q else [(L, st, ow) for L in (3, 4) for st in (0, 1, 2) for ow in (False, True)]):
         inst.append(strip_inst("c16", L, st, ow, "C19/C16 strip leaves exactly the bytes after the first N components"))
-    for nm, text, strip in REFUSED:
-        inst.append(Instance("c19_refused_%s" % nm, "parser", "t_refused(%s, %d)" % (bytes_lit(text), strip), unwind=max(len(text), 60) + 4,
-                             unwindset={"memcmp.0": 20}, stubs=[FROM_UTF8_STUB], mem_gb=10, timeout_s=1800,
-                             sub="C19 parse_patch refuses the file patch (wiring of strip -> check -> error)", params=dict(case=nm, strip=strip)))
-    for nm, text, strip in ACCEPTED:
-        inst.append(Instance("c19_accepted_%s" % nm, "parser", "t_accepted_safe(%s, %d)" % (bytes_lit(text), strip), unwind=max(len(text), 60) + 4,
-                             unwindset={"memcmp.0": 20}, stubs=[FROM_UTF8_STUB], mem_gb=8, timeout_s=1500,
-                             sub="C19 names made safe by stripping are still accepted", params=dict(case=nm, strip=strip)))
+    for nm, old, newn, strip, expect in NAME_PAIRS:
+        def lit(x):
+            return "None" if x is None else 'Some("%s")' % x
+        inst.append(Instance("c19_names_%s" % nm, "patch", "unsafe_names(%s, %s, %d, %s)" % (lit(old), lit(newn), strip, str(expect).lower()), unwind=16, unwindset={"memcmp.0": 8},
+                             features=True, cap=4, mem_gb=8, timeout_s=1200, sub="C19 both names of a file patch are vetted after strip (concrete names)",
+                             params=dict(old=old, new=newn, strip=strip, refused=expect)))
     from . import _mir
     return {
         "instances": inst,
@@ -60,13 +69,13 @@ def spec(tier, seed):
         "functions": ["FilePatch::strip", "FilePatch::unsafe_filename", "parse_patch (strip -> unsafe_filename -> Err)", "std::path::Path::components (real)"],
         "symbolic": "strip: every byte of the file name over the alphabet {a, ., /} (all arrangements of separators, '.', '..', leading '/'), Borrowed and Owned names, strip level from the matrix; "
                     "component classification: the component kind (MIR); refusal wiring: concrete patch texts",
-        "bounds": {"name_bytes": "<= 4", "strip": "0..2", "concrete_patch_texts": len(REFUSED) + len(ACCEPTED)},
+        "bounds": {"name_bytes": "<= 4", "strip": "0..2", "concrete_name_pairs": len(NAME_PAIRS)},
         "assumptions": ["the file-name lemma of C01 (parse_filename: bytes in = bytes out, quoted or not) carries every spelling of a name to the same bytes",
                         "a name is dangerous iff, after dropping N leading components, a '..' or root component is left (then base_dir.join(name) is not a lexical extension of base_dir)",
                         "symbolic links inside the tree are outside (GNU patch follows them as well unless told otherwise)"],
         "outside": ["names longer than 4 bytes / other alphabets", "the unsafe-name check composed with strip on symbolic names (Components::any over symbolic bytes exceeds 8 GB for 3 bytes)", "that get_or_load / save / backup only ever use names that went through parse_patch (call-site inspection; the drivers obtain FilePatch values from parse_patch only)"],
         "explanation": "the solver decides, for every name over the alphabet and every strip level, that strip drops exactly N components and that the unsafe-name check agrees with a bytewise reference; "
-                       "concrete end-to-end runs show parse_patch turns an unsafe name into an error and keeps accepting names that stripping made safe",
+                       "concrete name pairs show both names are vetted; the refusal wiring in parse_patch is an MIR VC (running the nom parser end to end exceeds 10 GB even on a concrete 40-byte patch)",
     }
 
 
